@@ -11,6 +11,11 @@
 // of the gobl module on the panicking stack), never by line number.  Sites
 // listed in known_findings.json (classifier "c14.site:<stage>:<pkg.func>")
 // are printed as KNOWN-FINDING; a panic at any other site is a VIOLATION.
+//
+// Every error object the gobl binary prints (exit 1) is judged by
+// Spec/C14.lean through the Lean driver; usage errors and failures to encode
+// the result are also compared with the model of cli.WrapError
+// (Panics.cliPresent).  See judgeCLI.
 package c14
 
 import (
@@ -48,6 +53,11 @@ type tcase struct {
 	Doc    string `json:"doc"`           // the input text
 	Via    string `json:"via,omitempty"` // "" (in-process) | cli:<cmd> | bulk:<action>
 	Stage  string `json:"stage,omitempty"`
+	// command line of a CLI case ($KEY / $PUB stand for the key files of the run) and, for a
+	// usage case, what the error is expected to be (plain | structured) and to mention
+	Args    []string `json:"args,omitempty"`
+	Expect  string   `json:"expect,omitempty"`
+	Mention string   `json:"mention,omitempty"`
 
 	gen func() []byte // lazy input (the text is produced in the worker and kept only when reported)
 }
@@ -748,7 +758,7 @@ func Run(c *core.Ctx) int {
 
 	// the smallest such input, always
 	fatalInputs = append(fatalInputs, tcase{Stream: "json", Doc: `{"$schema":"` + selfSchemaID + `"}`})
-	external(c, goblBin, exs, panicking, quiet, fatalInputs)
+	external(c, goblBin, exs, ids, panicking, quiet, fatalInputs)
 
 	extra := map[string]any{"exhaustive": false, "mutation_space": len(space), "documented_error_keys": len(documentedKeys), "call_sites_hit": siteExamples}
 	if exhaustive {
@@ -767,48 +777,186 @@ type cliErr struct {
 	Fields  json.RawMessage `json:"fields"`
 }
 
-// judgeCLI classifies one CLI outcome.
-func judgeCLI(c *core.Ctx, t tcase, r clibin.Res, inproc []panicRec) {
-	c.Count("via."+t.Via+fmt.Sprintf(".exit=%d", r.Code), 1)
-	switch {
-	case r.TimedOut:
-		c.Fail("", "gobl "+t.Via+" hung", t)
-	case r.Code == 0:
-		if strings.TrimSpace(r.Out) != "" && !json.Valid([]byte(r.Out)) {
-			c.Fail("", "gobl "+t.Via+" exit 0 but output is not JSON", t)
+// cliRun is one finished run of the gobl binary.
+type cliRun struct {
+	t      tcase
+	r      clibin.Res
+	inproc []panicRec
+}
+
+// shown is the error object a CLI run printed, as observed from outside.
+type shown struct {
+	ce        cliErr
+	members   []string // in the order code, key, fields, message, then anything else (sorted)
+	hasFields bool
+}
+
+func parseShown(text string) (shown, bool) {
+	var sh shown
+	var m map[string]json.RawMessage
+	if err := json.Unmarshal([]byte(text), &m); err != nil || m == nil {
+		return sh, false
+	}
+	_ = json.Unmarshal([]byte(text), &sh.ce) // a member of the wrong type leaves the zero value: judged as absent
+	for _, k := range []string{"code", "key", "fields", "message"} {
+		if _, ok := m[k]; ok {
+			sh.members = append(sh.members, k)
+			delete(m, k)
 		}
-	case r.Code == 1 && !strings.Contains(r.Err, "goroutine "):
-		var ce cliErr
-		if err := json.Unmarshal([]byte(r.Err), &ce); err != nil {
-			failCLI(c, "c14.clierr:not-json", fmt.Sprintf("gobl %s: error output is not JSON: %q", t.Via, tail(r.Err, 300)), t)
-			return
+	}
+	var rest []string
+	for k := range m {
+		rest = append(rest, k)
+	}
+	sort.Strings(rest)
+	sh.members = append(sh.members, rest...)
+	f := strings.TrimSpace(string(sh.ce.Fields))
+	sh.hasFields = f != "" && f != "null" && f != "{}"
+	return sh, true
+}
+
+func bit(b bool) string {
+	if b {
+		return "1"
+	}
+	return "0"
+}
+
+// isEncodingFailure recognises, by its text, the error with which
+// encoding/json refuses to encode a value (what cli.isEncodingError
+// recognises by type).
+func isEncodingFailure(msg string) bool {
+	return strings.HasPrefix(msg, "json: error calling Marshal") || strings.HasPrefix(msg, "json: unsupported type") || strings.HasPrefix(msg, "json: unsupported value")
+}
+
+// judgeCLI classifies the outcomes of the CLI runs.  An error object
+// (exit 1) is judged by the specification (Spec/C14 through the driver) and,
+// where the kind of error is known from outside (usage errors, encoding
+// failures), compared with the model of cli.WrapError.
+func judgeCLI(c *core.Ctx, runs []cliRun) {
+	type pending struct {
+		run  cliRun
+		sh   shown
+		kind string // plain | encoding | structured
+	}
+	var pend []pending
+	var reqs []string
+	for _, x := range runs {
+		t, r := x.t, x.r
+		c.Count("via."+t.Via+fmt.Sprintf(".exit=%d", r.Code), 1)
+		switch {
+		case r.TimedOut:
+			c.Fail("", "gobl "+t.Via+" hung", t)
+		case r.Code == 0:
+			if strings.TrimSpace(r.Out) != "" && !json.Valid([]byte(r.Out)) {
+				c.Fail("", "gobl "+t.Via+" exit 0 but output is not JSON", t)
+			}
+			if t.Stream == "usage" {
+				c.Fail("c14.clierr:usage-accepted", "gobl "+t.Via+": a command line that cannot be carried out ended with exit status 0", t)
+			}
+		case r.Code == 1 && !strings.Contains(r.Err, "goroutine "):
+			sh, ok := parseShown(r.Err)
+			if !ok {
+				failCLI(c, "c14.clierr:not-json", fmt.Sprintf("gobl %s: error output is not a JSON object: %q", t.Via, tail(r.Err, 300)), t)
+				continue
+			}
+			kind := "structured"
+			switch {
+			case t.Stream == "usage" && t.Expect == "plain":
+				kind = "plain"
+			case isEncodingFailure(sh.ce.Message):
+				kind = "encoding"
+			}
+			c.Count("cli-error-kind."+kind, 1)
+			pend = append(pend, pending{x, sh, kind})
+			obs := fmt.Sprintf("%d %s %s %s", max(sh.ce.Code, 0), core.Hex(sh.ce.Key), bit(sh.hasFields), core.Hex(sh.ce.Message))
+			reqs = append(reqs, "judge "+obs)
+			switch kind {
+			case "structured":
+				reqs = append(reqs, "present structured "+obs)
+			default:
+				reqs = append(reqs, "present "+kind+" "+core.Hex(sh.ce.Message))
+			}
+		default:
+			judgeAborted(c, t, r, x.inproc)
 		}
-		if ce.Key != "" && !documentedKeys[ce.Key] {
-			failCLI(c, "c14.clierr:undocumented-key", "gobl "+t.Via+": undocumented error key "+ce.Key, t)
+	}
+	if len(pend) == 0 {
+		return
+	}
+	resp, err := c.Model(append(reqs, "members"))
+	if err != nil || len(resp) != len(reqs)+1 || !strings.HasPrefix(resp[len(reqs)], "ok ") {
+		c.TieBroken("c14/cli-present", fmt.Sprintf("the model driver did not answer (%v)", err), nil)
+		return
+	}
+	allowed := map[string]bool{}
+	for _, m := range strings.Split(strings.TrimPrefix(resp[len(reqs)], "ok "), ",") {
+		allowed[m] = true
+	}
+	for i, p := range pend {
+		t, sh := p.run.t, p.sh
+		j := strings.Fields(resp[2*i])
+		m := strings.Fields(resp[2*i+1])
+		if len(j) != 4 || j[0] != "ok" || len(m) != 9 || m[0] != "ok" {
+			c.TieBroken("c14/cli-present", "bad answer of the model driver: "+resp[2*i]+" / "+resp[2*i+1], t)
+			continue
 		}
-		if ce.Code == 0 || (ce.Key == "" && ce.Message == "" && len(ce.Fields) == 0) {
-			failCLI(c, "c14.clierr:empty", fmt.Sprintf("gobl %s: error without code/key/message: %q", t.Via, tail(r.Err, 200)), t)
-		}
-	default:
-		// the process was aborted (exit 2 = Go panic or fatal error)
-		if strings.Contains(r.Err, "fatal error: stack overflow") && strings.Contains(r.Err, "schema.(*Object).UnmarshalJSON") && namesSelfSchema([]byte(t.Doc)) {
-			c.Fail(fatalSelfSchema, "gobl "+t.Via+" killed by a stack overflow: schema.(*Object).UnmarshalJSON calls itself for ever on a document whose $schema is the schema of schema.Object", t)
-			return
-		}
-		site := core.PanicSite([]byte(r.Err))
-		if site == "" {
-			site = "(no gobl frame)"
-		}
-		c.Count("via."+t.Via+".process-aborted", 1)
-		// same defect as seen in-process on the same input?
-		for _, p := range inproc {
-			if p.site == site {
-				c.Fail(classifier(p.stage, p.site), fmt.Sprintf("gobl %s aborted by a panic at %s", t.Via, site), t)
-				return
+		// (1) the property, judged on what was printed
+		bad := false
+		for _, mem := range sh.members {
+			if !allowed[mem] {
+				bad = true
+				failCLI(c, "c14.clierr:empty", fmt.Sprintf("gobl %s: the error object has a member %q that is none of code/key/fields/message (the Go error value itself was encoded?): %q", t.Via, mem, tail(p.run.r.Err, 200)), t)
+				break
 			}
 		}
-		c.Fail(classifier(t.Via, site), fmt.Sprintf("gobl %s aborted (exit %d) by a panic at %s that the in-process run of the same input does not show: %s", t.Via, r.Code, site, tail(r.Err, 400)), t)
+		if !bad && j[1] != "1" {
+			bad = true
+			if sh.ce.Key != "" && !documentedKeys[sh.ce.Key] {
+				failCLI(c, "c14.clierr:undocumented-key", "gobl "+t.Via+": undocumented error key "+sh.ce.Key, t)
+			} else {
+				failCLI(c, "c14.clierr:empty", fmt.Sprintf("gobl %s: error without code/key/message: %q", t.Via, tail(p.run.r.Err, 200)), t)
+			}
+		}
+		if !bad && p.kind == "encoding" && j[3] != "1" {
+			bad = true
+			failCLI(c, "c14.clierr:encoding-failure-unkeyed", fmt.Sprintf("gobl %s: the result could not be encoded and the error does not say so with the documented key (want code 422, key marshal): %q", t.Via, tail(p.run.r.Err, 300)), t)
+		}
+		if !bad && t.Stream == "usage" && t.Mention != "" && !strings.Contains(sh.ce.Message, t.Mention) {
+			bad = true
+			failCLI(c, "c14.clierr:usage-message", fmt.Sprintf("gobl %s: the error does not name what was wrong (%q): %q", t.Via, t.Mention, tail(p.run.r.Err, 200)), t)
+		}
+		if bad {
+			continue
+		}
+		// (2) the model of cli.WrapError, where the kind of error is known from outside
+		want := fmt.Sprintf("%s %s %s %s", m[1], m[2], m[3], m[5])
+		got := fmt.Sprintf("%d %s %s %s", sh.ce.Code, core.Hex(sh.ce.Key), bit(sh.hasFields), strings.Join(sh.members, ","))
+		if want != got {
+			c.TieBroken("c14/cli-present", fmt.Sprintf("gobl %s: a %s error is presented as (code key fields members) %s, the model of cli.WrapError says %s: %q", t.Via, p.kind, got, want, tail(p.run.r.Err, 200)), t)
+		}
 	}
+}
+
+// judgeAborted: the process was aborted (exit 2 = Go panic or fatal error)
+func judgeAborted(c *core.Ctx, t tcase, r clibin.Res, inproc []panicRec) {
+	if strings.Contains(r.Err, "fatal error: stack overflow") && strings.Contains(r.Err, "schema.(*Object).UnmarshalJSON") && namesSelfSchema([]byte(t.Doc)) {
+		c.Fail(fatalSelfSchema, "gobl "+t.Via+" killed by a stack overflow: schema.(*Object).UnmarshalJSON calls itself for ever on a document whose $schema is the schema of schema.Object", t)
+		return
+	}
+	site := core.PanicSite([]byte(r.Err))
+	if site == "" {
+		site = "(no gobl frame)"
+	}
+	c.Count("via."+t.Via+".process-aborted", 1)
+	// same defect as seen in-process on the same input?
+	for _, p := range inproc {
+		if p.site == site {
+			c.Fail(classifier(p.stage, p.site), fmt.Sprintf("gobl %s aborted by a panic at %s", t.Via, site), t)
+			return
+		}
+	}
+	c.Fail(classifier(t.Via, site), fmt.Sprintf("gobl %s aborted (exit %d) by a panic at %s that the in-process run of the same input does not show: %s", t.Via, r.Code, site, tail(r.Err, 400)), t)
 }
 
 // failCLI reports a command-line error that is not structured as documented;
@@ -822,8 +970,15 @@ func failCLI(c *core.Ctx, cls, what string, t tcase) {
 		cliNoted[cls+t.Via] = true
 		c.Note("%s via %s: %s; input %s %s %s: %.300q", cls, t.Via, what, t.Name, t.Path, t.Kind, t.Doc)
 	}
+	// one witness per kind of defect (every occurrence is counted above)
+	if cliFailed[cls] {
+		return
+	}
+	cliFailed[cls] = true
 	c.Fail(cls, what, t)
 }
+
+var cliFailed = map[string]bool{}
 
 var cliNoted = map[string]bool{}
 
@@ -863,25 +1018,72 @@ func yamlLineMutants(r *rand.Rand, y []byte, n int) [][]byte {
 	return out
 }
 
-func external(c *core.Ctx, goblBin string, exs []example, panicking, quiet, fatal []tcase) {
-	home, err := os.MkdirTemp("", "c14-home-")
+// cliHome makes a scratch home directory with a fresh key pair in it.
+func cliHome(goblBin string) (home string, err error) {
+	home, err = os.MkdirTemp("", "c14-home-")
+	if err != nil {
+		return "", err
+	}
+	if r := clibin.Run(goblBin, home, nil, 30*time.Second, "keygen", filepath.Join(home, "key.jwk")); r.Code != 0 {
+		_ = os.RemoveAll(home)
+		return "", fmt.Errorf("keygen: %s", r.Err)
+	}
+	return home, nil
+}
+
+// cliArgs replaces the key-file placeholders of a recorded command line.
+func cliArgs(home string, args []string) []string {
+	out := make([]string, len(args))
+	for i, a := range args {
+		switch a {
+		case "$KEY":
+			a = filepath.Join(home, "key.jwk")
+		case "$PUB":
+			a = filepath.Join(home, "key.pub.jwk")
+		}
+		out[i] = a
+	}
+	return out
+}
+
+// usageCases: command lines that cannot be carried out whatever the input is,
+// what kind of error ends them (a plain Go error of cobra / os, or one that
+// internal/cli structured already) and what the message has to name.
+var usageCases = []struct {
+	args    []string
+	expect  string
+	mention string
+}{
+	{[]string{"nonsense"}, "plain", "nonsense"},
+	{[]string{"--no-such-flag"}, "plain", "--no-such-flag"},
+	{[]string{"build", "--no-such-flag"}, "plain", "--no-such-flag"},
+	{[]string{"correct", "--no-such-flag"}, "plain", "--no-such-flag"},
+	{[]string{"build", "--set"}, "plain", "--set"},
+	{[]string{"build", "a", "b", "c"}, "plain", "arg"},
+	{[]string{"build", "-w"}, "plain", "STDIN"},
+	{[]string{"build", "/no/such/file"}, "plain", "/no/such/file"},
+	{[]string{"validate", "/no/such/file"}, "plain", "/no/such/file"},
+	{[]string{"replicate", "/no/such/file"}, "plain", "/no/such/file"},
+	{[]string{"build", "-T", "/no/such/template"}, "plain", "/no/such/template"},
+	{[]string{"verify", "-k", "/no/such/key"}, "plain", "/no/such/key"},
+	{[]string{"sign", "-k", "/no/such/key"}, "plain", "/no/such/key"},
+	{[]string{"keygen", "/no/such/dir/key"}, "plain", "/no/such/dir"},
+	{[]string{"build", "-t", "no.such.type"}, "structured", "no.such.type"},
+}
+
+func external(c *core.Ctx, goblBin string, exs []example, ids []string, panicking, quiet, fatal []tcase) {
+	home, err := cliHome(goblBin)
 	if err != nil {
 		c.TieBroken("cli", err.Error(), nil)
 		return
 	}
 	defer os.RemoveAll(home) //nolint:errcheck
-	if r := clibin.Run(goblBin, home, nil, 30*time.Second, "keygen", filepath.Join(home, "key.jwk")); r.Code != 0 {
-		c.TieBroken("cli", "keygen: "+r.Err, nil)
-		return
-	}
-	keyFile := filepath.Join(home, "key.jwk")
-	pubFile := filepath.Join(home, "key.pub.jwk")
 	type job struct {
 		t    tcase
 		args []string
 	}
 	var jobs []job
-	cmds := [][]string{{"build"}, {"build", "-e"}, {"validate"}, {"sign", "-k", keyFile}, {"verify", "-k", pubFile}, {"correct", "--credit"}, {"correct", "-d", `{"type":"corrective","stamps":[null]}`}, {"replicate"}, {"correct", "--options"}}
+	cmds := [][]string{{"build"}, {"build", "-e"}, {"validate"}, {"sign", "-k", "$KEY"}, {"verify", "-k", "$PUB"}, {"correct", "--credit"}, {"correct", "-d", `{"type":"corrective","stamps":[null]}`}, {"replicate"}, {"correct", "--options"}}
 	pick := func(ts []tcase, n int) []tcase {
 		idx := c.Rng.Perm(len(ts))
 		var out []tcase
@@ -923,9 +1125,19 @@ func external(c *core.Ctx, goblBin string, exs []example, panicking, quiet, fata
 		jobs = append(jobs, job{t, []string{"build"}})
 	}
 	// usage errors: also "errors surfaced through the command line"
-	for _, a := range [][]string{{"nonsense"}, {"build", "--no-such-flag"}, {"build", "/no/such/file"}, {"verify", "-k", "/no/such/key"}, {"build", "-t", "no.such.type"}} {
-		jobs = append(jobs, job{tcase{Stream: "usage", Doc: "{}", Via: "cli:" + strings.Join(a, " ")}, a})
+	for _, u := range usageCases {
+		jobs = append(jobs, job{tcase{Stream: "usage", Doc: "{}", Via: "cli:" + strings.Join(u.args, " "), Expect: u.expect, Mention: u.mention}, u.args})
 	}
+	// a document that is nothing but its $schema, for every registered schema:
+	// read, processed, and for the types whose empty value has no members of
+	// its own the result cannot be encoded (schema.Object.MarshalJSON fails) -
+	// the one refusal that comes from the output side of a command
+	for _, id := range ids {
+		for _, cm := range [][]string{{"replicate"}, {"build"}} {
+			jobs = append(jobs, job{tcase{Stream: "schema-only", Name: id, Doc: `{"$schema":"` + id + `"}`, Via: "cli:" + cm[0]}, cm})
+		}
+	}
+	var runs []cliRun
 	var wg sync.WaitGroup
 	var mu sync.Mutex
 	sem := make(chan struct{}, 12)
@@ -941,14 +1153,23 @@ func external(c *core.Ctx, goblBin string, exs []example, panicking, quiet, fata
 			} else if jb, err := yaml.YAMLToJSON([]byte(j.t.Doc)); err == nil {
 				inproc, _, _ = pipeline(jb)
 			}
-			r := clibin.Run(goblBin, home, []byte(j.t.Doc), 60*time.Second, j.args...)
+			r := clibin.Run(goblBin, home, []byte(j.t.Doc), 60*time.Second, cliArgs(home, j.args)...)
+			j.t.Args = j.args
 			mu.Lock()
 			c.Eval("cli|"+j.t.Via+"|"+j.t.Name+"|"+j.t.Path+"|"+j.t.Kind+"|"+fmt.Sprint(len(j.t.Doc)), true)
-			judgeCLI(c, j.t, r, inproc)
+			runs = append(runs, cliRun{j.t, r, inproc})
 			mu.Unlock()
 		}(j)
 	}
 	wg.Wait()
+	// judged in a fixed order, whatever order the processes finished in
+	sort.SliceStable(runs, func(i, k int) bool {
+		if runs[i].t.Via != runs[k].t.Via {
+			return runs[i].t.Via < runs[k].t.Via
+		}
+		return runs[i].t.Doc < runs[k].t.Doc
+	})
+	judgeCLI(c, runs)
 
 	// bulk: [ping, <action on the input>, ping]; a panic takes the whole server down
 	srv, err := clibin.Serve(goblBin, home, 4)
@@ -1046,7 +1267,25 @@ func replay(c *core.Ctx, t tcase, goblBin string) {
 		}
 		return
 	}
-	fmt.Fprintln(os.Stderr, "replay of CLI/bulk cases: run the in-process pipeline on the same input")
+	if strings.HasPrefix(t.Via, "cli:") && len(t.Args) > 0 {
+		// the same command line on the same input
+		home, err := cliHome(goblBin)
+		if err != nil {
+			c.TieBroken("cli", err.Error(), nil)
+			return
+		}
+		defer os.RemoveAll(home) //nolint:errcheck
+		var inproc []panicRec
+		if t.Stream != "yaml-lines" && t.Stream != "usage" {
+			inproc, _, _ = pipeline([]byte(t.Doc))
+		}
+		r := clibin.Run(goblBin, home, []byte(t.Doc), 60*time.Second, cliArgs(home, t.Args)...)
+		c.Eval("replay-cli", true)
+		fmt.Fprintf(os.Stderr, "replay: gobl %s: exit %d, stderr %q\n", strings.Join(t.Args, " "), r.Code, tail(r.Err, 400))
+		judgeCLI(c, []cliRun{{t, r, inproc}})
+		return
+	}
+	fmt.Fprintln(os.Stderr, "replay of bulk cases: run the in-process pipeline on the same input")
 	t.Via = ""
 	replay(c, t, goblBin)
 }
